@@ -64,6 +64,32 @@ CHECKS["C09"] = (MC,
     "remote and compares with that notebook; ordering, contiguity, schema and plain-JSON clauses are evaluated on every list.",
     MERGE_NOTE, "DESIGN.md §5 C09")
 
+CHECKS["C06"] = (MC,
+    "TLC enumeration of Ownership.tla (owner/action per cell, non-adjacent insertion, expected merge by construction) replayed into the "
+    "real merger; TLC trace validation (MergeTrace.tla clause DisjointExact); generic JSON disjoint keys / separated positions",
+    "The specification generates every case of 'the two sides change different cells' for N=2 (exhaustive), N=3 (exhaustive in "
+    "thorough) and N=4 (sampled) together with the expected result; each case is concretised and merged under the default strategy and "
+    "mergetool, and TLC checks no-conflict and merged = expected. Generic JSON cases are constructed exhaustively over a small family.",
+    MERGE_NOTE, "DESIGN.md §5 C06")
+CHECKS["C07"] = (MC,
+    "TLC trace validation (MergeTrace.tla: LinesSurvive, LinesProvenance, SameLineFlagged over line sets computed by the spec) of default-"
+    "strategy merges under git merge-file / diff3 / built-in",
+    "For every default-strategy merge of the C03 triples under each text-merge helper TLC computes the source line sets of base, local, "
+    "remote and merged and checks survival and provenance (markers allowed); a dedicated family where both sides rewrite the same "
+    "line(s) of an id-aligned cell must be flagged as conflict with both variants present.", MERGE_NOTE, "DESIGN.md §5 C07")
+CHECKS["C10"] = (MC,
+    "TLC trace validation (MergeTrace.tla: UseSideNoConflict, UseSideEquivalence via the specification's ResolveAll + ApplyDecisions, "
+    "LinesProvenance) of use-base/local/remote merges against the open-conflict (mergetool) run of the same triple",
+    "Each triple is merged with conflicts left open and with use-<side> given as merge strategy, as input+output strategy, and as all "
+    "three, transients ignored or not; TLC resolves every conflicted decision of the open run to that side with the spec's applier and "
+    "compares with the strategy's merged notebook.", MERGE_NOTE, "DESIGN.md §5 C10")
+CHECKS["C11"] = (MC,
+    "TLC trace validation: DiffTrace.tla clauses SchemaOK/PlainJSON/WellFormed on every diff of the C01/C02 input spaces, MergeTrace.tla "
+    "clause EmbeddedWellFormed on every diff embedded in merge decisions; DiffModel.tla checks WellFormed/Patch consistency",
+    "WellFormed(base, diff) is a TLA+ predicate transcribing exactly the rules the property lists; it is evaluated on every diff the "
+    "generic and notebook differs return (exhaustive universe cross product + random + notebook pairs) and on the local/remote/custom "
+    "diffs of every decision relative to the sub-document addressed by the decision's path.", MERGE_NOTE, "DESIGN.md §5 C11")
+
 NOT_YET = {}
 
 PROPS = [json.loads(l)["id"] for l in open(os.path.join(VERIF, "properties.jsonl"))]
